@@ -430,6 +430,39 @@ func init() {
 				rg.compareWithModel(prog, nil, r, true)
 			},
 		}
+		// a macro value that went through with-meta / the ^ reader macro / a plain def under another name is
+		// still that macro: a call through the new name must do what the call through the old name does
+		type alias struct{ defs, viaOld, viaNew string }
+		aliasCases := []alias{
+			{`(do (defmacro un (fn [c a b] (list 'if c b a))) (def un2 (with-meta un {:doc "x"})))`, `(un (t! nil) (t! 1) (t! 2))`, `(un2 (t! nil) (t! 1) (t! 2))`},
+			{`(do (defmacro un (fn [c a b] (list 'if c b a))) (def un2 ^{:doc "x"} un))`, `(un false (t! 1) (t! 2))`, `(un2 false (t! 1) (t! 2))`},
+			{`(do (defmacro un (fn [c a b] (list 'if c b a))) (def un2 un))`, `(un false (t! 1) (t! 2))`, `(un2 false (t! 1) (t! 2))`},
+			{`(def or2 (with-meta or {:inline true}))`, `(or nil (t! 5) (t! 6))`, `(or2 nil (t! 5) (t! 6))`},
+			{`(def and2 ^{:inline true} and)`, `(and (t! 1) (t! nil) (t! 3))`, `(and2 (t! 1) (t! nil) (t! 3))`},
+			{`(def cond2 (with-meta cond {:k 1}))`, `(cond (t! false) (t! 1) :else (t! 2))`, `(cond2 (t! false) (t! 1) :else (t! 2))`},
+			{`(do (defmacro tw (fn [a] (list 'do a a))) (def tw2 (with-meta (with-meta tw {:a 1}) {:b 2})))`, `(tw (t! 1))`, `(tw2 (t! 1))`},
+		}
+		aliases := &vf.Family{
+			Name: "macro-values-under-other-names", Bounds: fmt.Sprintf("%d hand-built cases: a user or library macro re-bound with def, with-meta or the ^ reader macro, called through the old and the new name with effectful operands", len(aliasCases)),
+			Setup: setup, InProc: true,
+			N:        func(string) int64 { return int64(len(aliasCases)) },
+			Describe: func(i int64) string { return aliasCases[i].defs + " " + aliasCases[i].viaNew },
+			Run: func(i int64, r *vf.Rec) {
+				c := aliasCases[i]
+				r.NT()
+				scope := env.NewSubordinateEnv(rg.base)
+				if o := rg.evalIn(lx.MustRead(c.defs), scope); o.Panic != nil || o.IsErr {
+					r.Violation("re-binding a macro value fails", c.defs+": "+outStr(o))
+					return
+				}
+				a := rg.evalIn(lx.MustRead(c.viaOld), scope)
+				b := rg.evalIn(lx.MustRead(c.viaNew), scope)
+				r.Exec(2)
+				if !sameOutcome(a, b) {
+					r.Violation("a macro value bound under another name (with metadata) no longer behaves as that macro", c.defs+"\n"+c.viaOld+": "+outStr(a)+"\n"+c.viaNew+": "+outStr(b))
+				}
+			},
+		}
 		// hand-built families: recursive macros, macros expanding to macros, library macros
 		type fixed struct{ defs, call string }
 		fixedCases := []fixed{
@@ -463,7 +496,7 @@ func init() {
 			ID: "C12", Level: "model_checking",
 			Rule:        "every quasiquote template of the bounded grammar is compared with a substitution computed on the model ADT (and with eval of quasiquoteexpand); every macro built from a bounded code template x every operand tuple is compared with the definitional interpreter, with evaluation of its own macroexpand result (head no longer a macro), and with the same body as an ordinary function; non-trivial = has effects",
 			Assumptions: []string{"unquote/splice-unquote with a wrong operand count are malformed (C04's domain) and skipped", "splicing a non-sequence is unspecified and skipped"},
-			Families:    []*vf.Family{qq, pairs, mac, twice, fx},
+			Families:    []*vf.Family{qq, pairs, mac, twice, aliases, fx},
 		}
 	})
 }
